@@ -510,6 +510,15 @@ func GenProgram(t *rapid.T, prof *Profile, doc Doc) *Program {
 		if g.pct(25, "out_input_tag") {
 			fields = append(fields, F("in_tag", Ref("input", "tag")))
 		}
+		if prof.DeepExpr && g.pct(25, "out_float_string") {
+			// a conversion chain through the float functions (whole numbers print without a decimal point)
+			fields = append(fields, F("fstr", Call("floatToString", Call("intToFloat", Ref("input", "n")))))
+		}
+		if prof.DeepExpr && g.pct(25, "out_float_formatted") {
+			f := rapid.SampledFrom([]string{"f", "e", "E", "g", "G", "b", "x", "X"}).Draw(t, "float_format")
+			prec := int64(rapid.SampledFrom([]int{-1, 0, 2}).Draw(t, "float_precision"))
+			fields = append(fields, F("ffmt", Call("floatToFormattedString", Call("intToFloat", Ref("input", "n")), Lit(f), Lit(prec))))
+		}
 		for _, s := range p.Steps {
 			if s.Kind == "plugin" && g.pct(prof.StageRefs, "stage_ref") {
 				fields = append(fields, F("st_"+s.ID, StepRef(s.ID, "outputs", "")))
